@@ -113,10 +113,46 @@ def run(prog: Program, ctx: Ctx) -> None:  # noqa: PLR0912,PLR0915
             got_ok = [c[0] for c in calls] == [handler[ok_]] and calls[0][1][:2] == (old, new)
         ctx.ob("R2", f"row|old={'alias ' if oa else ''}{ok_}|new={'alias ' if na else ''}{nk}", got_ok,
                f"old={'alias to ' if oa else ''}{ok_}, new={'alias to ' if na else ''}{nk}: expected {want}; got calls={[c[0] for c in calls]} yields={out}", where(tby))
-    # seen guard row
+    # visited-set rows, on behaviour: the same comparison a second time yields nothing (no duplicate reports, no endless recursion through aliases) ...
+    seen: set = set()
+    b_old, b_new = member("FUNCTION", alias=False, path="p.Base.run"), member("FUNCTION", alias=False, path="p.Base.run")
     calls.clear()
-    out = itp.call(tby, member("CLASS", alias=False, path="p.m"), member("FUNCTION", alias=False, path="p.m"), **{seen_kw(tby): {"p.m"}})
-    ctx.ob("R2", "row|already-seen", not out and not calls, "a path already compared yields nothing (no duplicate reports through aliases)", where(tby))
+    itp.call(tby, b_old, b_new, **{seen_kw(tby): seen})
+    first = [c[0] for c in calls]
+    calls.clear()
+    out = itp.call(tby, b_old, b_new, **{seen_kw(tby): seen})
+    ctx.ob("R2", "row|already-seen", first == ["_function_incompatibilities"] and not out and not calls,
+           f"the same pair compared twice: first {first}, second yields {out} calls {[c[0] for c in calls]} (expected nothing the second time)", where(tby))
+    # ... but an old object already compared once (Base.run against Base.run) and now reached again through another public member (Worker.run, inherited
+    # in the old version) is still compared against what that member is in the new version (an override with another signature)
+    saved = itp.stubs.pop(f"{D}._alias_incompatibilities")
+    w_old = member("FUNCTION", alias=True, path="p.Worker.run")
+    w_old.attrs["target"] = b_old
+    w_new = member("FUNCTION", alias=False, path="p.Worker.run")
+    calls.clear()
+    try:
+        itp.call(tby, w_old, w_new, **{seen_kw(tby): seen})
+        got_calls: object = [(c[0], c[1][0] is b_old, c[1][1] is w_new) for c in calls]
+    except Raised as r:
+        got_calls = f"raises {r.exc}"
+    itp.stubs[f"{D}._alias_incompatibilities"] = saved
+    ctx.ob("R2", "row|seen-object-reached-through-another-member", got_calls == [("_function_incompatibilities", True, True)],
+           f"Base.run was compared with Base.run; Worker.run (old: inherited Base.run, new: its own definition) must still be compared: got {got_calls}, "
+           "expected one function comparison of (old Base.run, new Worker.run)", where(tby))
+    # a change found behind a re-export is reported against a public path of the object (the re-export), not against the private module it lives in
+    saved = itp.stubs.pop(f"{D}._alias_incompatibilities")
+    t_old, t_new = member("FUNCTION", alias=False, path="p._impl.f", name="f"), member("CLASS", alias=False, path="p._impl.f", name="f")
+    r_old, r_new = member("FUNCTION", alias=True, path="p.f", name="f"), member("CLASS", alias=True, path="p.f", name="f")
+    r_old.attrs["target"], r_new.attrs["target"] = t_old, t_new
+    try:
+        out = itp.call(tby, r_old, r_new, **{seen_kw(tby): set()})
+        rep = [(o.cls.name, itp.getattr(o.attrs["obj"], "path")) for o in out if isinstance(o, Obj) and o.cls is not None]
+    except Raised as r:
+        rep = [f"raises {r.exc}"]
+    itp.stubs[f"{D}._alias_incompatibilities"] = saved
+    ctx.ob("R2", "row|re-export-reported-against-public-path", rep == [("ObjectChangedKindBreakage", "p.f")],
+           f"`p.f` re-exports `p._impl.f`, which turned from a function into a class: reported as {rep}; the public path is p.f "
+           "(p._impl is private: a report against p._impl.f names something the user never imported)", where(tby))
     ctx.expect_min("R2", rows, 64)
 
     ctx.rule("R3", "decision tables: a public old member missing on the new side -> exactly one ObjectRemovedBreakage (non-public -> nothing; "
